@@ -9,6 +9,7 @@ import (
 	"path/filepath"
 	"runtime"
 	"sort"
+	"strings"
 	"sync"
 	"time"
 
@@ -321,4 +322,22 @@ func GoodWalkVisitsAll(dir string, visit func(string)) error {
 		visit(path)
 		return nil
 	})
+}
+
+// BadEntryPathPrefixTest refuses every name that begins with two dots, "..data" included.
+func BadEntryPathPrefixTest(dir, name string) (string, bool) {
+	rel := filepath.Clean(name)
+	if strings.HasPrefix(rel, "..") {
+		return "", false
+	}
+	return filepath.Join(dir, rel), true
+}
+
+// GoodEntryPathElementTest refuses only names that leave the directory.
+func GoodEntryPathElementTest(dir, name string) (string, bool) {
+	rel := filepath.Clean(name)
+	if rel == ".." || strings.HasPrefix(rel, "../") {
+		return "", false
+	}
+	return filepath.Join(dir, rel), true
 }
